@@ -475,6 +475,17 @@ func init() {
 		"fmt.Println": func(fr *frame, args []value) value { return toStdout(fr, fmtSprint(fr, args[0].([]value), true)) },
 		"fmt.Print":   func(fr *frame, args []value) value { return toStdout(fr, fmtSprint(fr, args[0].([]value), false)) },
 
+		// reflect.TypeOf: only as something printable (error and panic messages name dynamic types);
+		// any method call on the result is unsupported
+		"reflect.TypeOf": func(fr *frame, args []value) value {
+			itf, _ := args[0].(iface)
+			name := "<nil>"
+			if itf.t != nil {
+				name = types.TypeString(itf.t, func(p *types.Package) string { return p.Name() })
+			}
+			return iface{t: types.Typ[types.String], v: name}
+		},
+
 		// errors (reflectlite)
 		"errors.Is": extErrorsIs,
 
